@@ -24,6 +24,7 @@ const FS_FAULTS: &[&str] = &[
     "odd_dir_name",
     "stale_results",
     "stale_gains_table",
+    "unicode_texts",
 ];
 const ODD_NAMES: &[&str] = &["Proyecto [rev2]", "casa (copia) 1", "obra?", "edif*", "Año 2024 ñ", "a b\tc"];
 const RUST_LOGS: &[Option<&str>] = &[None, None, Some("error"), Some("warn"), Some("info"), Some("debug"), Some("trace")];
@@ -193,6 +194,10 @@ pub fn run(tier: &str, seed: u64, replay: Option<String>) -> i32 {
             "path_form":"abs","hash_seed":12345,"fake_time":Value::Null,"lang":Value::Null,"thor_r":false,"thor_v":0}));
         env_jobs.push(json!({"t":"env","project":p,"tool":"hulc2model","use_extra":true,"fs":["stale_gains_table"],"rust_log":Value::Null,
             "path_form":"abs","hash_seed":54321,"fake_time":Value::Null,"lang":Value::Null,"thor_r":false,"thor_v":0}));
+        // free texts of the project (name, author, ...) with characters of every UTF-8 length,
+        // including ones outside the basic multilingual plane
+        env_jobs.push(json!({"t":"env","project":p,"tool":"hulc2model","use_extra":false,"fs":["unicode_texts"],"rust_log":Value::Null,
+            "path_form":"abs","hash_seed":0,"fake_time":Value::Null,"lang":Value::Null,"thor_r":false,"thor_v":0}));
         // the documented use: stdout redirected to a file; and an interactive terminal
         for dev in ["file", "tty", "slow_pipe_stop", "dev_full", "closed_pipe"] {
             env_jobs.push(json!({"t":"env","project":p,"tool":"hulc2model","use_extra":dev == "file","fs":[],"rust_log":Value::Null,
